@@ -131,6 +131,11 @@ func (t tupleVariation) calculateScalar(coords []VarCoord, sharedTuples [][]VarC
 	startTuple, endTuple := t.IntermediateTuples[0].Values, t.IntermediateTuples[1].Values
 	hasIntermediate := startTuple != nil
 
+	// invalid font: the tuples have less values than the number of axes in 'fvar'
+	if len(peakTuple) < endIdx || (hasIntermediate && (len(startTuple) < endIdx || len(endTuple) < endIdx)) {
+		return 0.
+	}
+
 	var scalar float32 = 1.
 	for i := startIdx; i < endIdx; i++ {
 		v, peak := coords[i], peakTuple[i]
@@ -605,6 +610,9 @@ func (f *Font) NormalizeVariations(coords []float32) []VarCoord {
 
 	// now applying 'avar'
 	for i, av := range f.avar.AxisSegmentMaps {
+		if i >= len(normalized) { // invalid font: more axes in 'avar' than in 'fvar'
+			break
+		}
 		l := av.AxisValueMaps
 		for j := 1; j < len(l); j++ {
 			previous, pair := l[j-1], l[j]
